@@ -245,6 +245,26 @@ def boundary_addresses(family: int, extra_inner=False):
     return sorted(out)
 
 
+# IPv6 addresses that *embed* an IPv4 address without being a notation of it (only ::ffff:a.b.c.d is): the class of such
+# an address is that of its own IPv6 block, whatever IPv4 address is embedded.
+EMBEDDED_V4 = ["127.0.0.1", "10.0.0.1", "192.168.1.1", "169.254.1.1", "100.64.0.1", "192.0.2.1", "8.8.8.8", "1.1.1.1"]
+
+
+def embedding_addresses():
+    """[(form, ipv6 integer)] for every embedding form x EMBEDDED_V4"""
+    out = []
+    for text in EMBEDDED_V4:
+        v4 = parse4(text)
+        out.append(("6to4", (0x2002 << 112) | (v4 << 80) | 1))  # 2002:V4ADDR::1 (RFC 3056)
+        out.append(("teredo-server", (0x20010000 << 96) | (v4 << 64) | 1))  # 2001:0:V4ADDR::1 (RFC 4380)
+        out.append(("teredo-client", (0x20010000 << 96) | (parse4("8.8.8.8") << 64) | (v4 ^ 0xFFFFFFFF)))  # obfuscated client address
+        out.append(("nat64", (0x0064FF9B << 96) | v4))  # 64:ff9b::V4ADDR (RFC 6052)
+        out.append(("nat64-local", (0x0064FF9B0001 << 80) | v4))  # 64:ff9b:1::V4ADDR (RFC 8215)
+        out.append(("ipv4-compatible", v4))  # ::V4ADDR (deprecated, RFC 4291)
+        out.append(("isatap", (0xFE80 << 112) | (0x00005EFE << 32) | v4))  # fe80::5efe:V4ADDR (RFC 5214)
+    return out
+
+
 # ordinary, well-known globally routed hosts (resolvers) and the extremes of ordinary space
 ORDINARY4 = ["1.0.0.0", "1.1.1.1", "8.8.8.8", "9.9.9.9", "100.63.255.255", "100.128.0.0", "126.255.255.255", "128.0.0.0",
              "172.15.255.255", "172.32.0.0", "192.167.255.255", "192.169.0.0", "198.17.255.255", "198.20.0.0",
